@@ -13,7 +13,7 @@ from ..core import Result
 POOL_MAX = 6
 STD = ['ALA', 'GLY', 'SER', 'HOH']
 NONSTD = ['LIG', 'XY1', 'MOL']
-CHAIN_IDS = ['A', 'B', 'A', None, 'X', 'C', None]
+CHAIN_IDS = ['A', 'B', 'A', None, 'X', 'C', None, ' ']       # incl. the blank id load_pdb gives chains of files without chain letters
 SEGS = ['', '', 'SEG1', 'PROA', 'W']
 ELEMS = ['C', 'N', 'O', 'H', 'S', 'P', 'D', 'Cl', 'Na', 'Fe', 'VS']       # incl. deuterium (shares Z with H), two-letter symbols, a virtual site
 BOND_TYPES = [None, 'Single', 'Double', 'Triple', 'Aromatic', 'Amide']
